@@ -54,6 +54,7 @@ class AsyncRunner:
     def __init__(self, interpreter: Interpreter, interval: float = 0.1, execute_all=False) -> None:
         self._unpaused = threading.Event()
         self._stop = threading.Event()
+        self._lock = threading.Lock()
 
         self.interpreter = interpreter
         self.interval = interval
@@ -90,15 +91,19 @@ class AsyncRunner:
         """
         Stop the execution.
         """
-        self._stop.set()
-        self._unpaused.set()
+        with self._lock:
+            self._stop.set()
+            self._unpaused.set()
         self.wait()
 
     def pause(self):
         """
         Pause the execution.
         """
-        self._unpaused.clear()
+        with self._lock:
+            # A stopped runner cannot be paused (its thread would never terminate)
+            if not self._stop.is_set():
+                self._unpaused.clear()
 
     def unpause(self):
         """
